@@ -761,6 +761,22 @@ def sh_units(ctx, out, rule="SH.units", floor=20):
                 cb = ctx.facts.body(adt) if adt else None
                 if cb is not None and cb.kind == "Closure":
                     item_params.setdefault(cb.id, set()).add(2)
+    # closures handed to a method of a plain `Chars` iterator: called once per character
+    per_char = set()
+    for b in bodies:
+        for bi, t in b.calls():
+            if len(t["args"]) < 2 or not re.search(r"Iterator::(fold|try_fold|for_each|try_for_each|map|scan|inspect|filter_map|flat_map)$", t.get("def") or ""):
+                continue
+            pl0 = t["args"][0].get("c") or t["args"][0].get("m")
+            ty0 = (b.locals[pl0["l"]].get("ty") or "") if pl0 is not None else ""
+            if not CHARS_TY.search(ty0) or "CharIndices" in ty0 or "Enumerate" in ty0:
+                continue
+            for a in t["args"][1:]:
+                pl = a.get("c") or a.get("m")
+                adt = b.locals[pl["l"]].get("adt") if pl is not None else None
+                cb = ctx.facts.body(adt) if adt else None
+                if cb is not None and cb.kind == "Closure":
+                    per_char.add(cb.id)
     for b in bodies:
         views = [(b, item_params.get(b.id, ()))]
         if any(CHARS_TY.search(l.get("ty") or "") for l in b.locals) and b.kind != "Closure":
@@ -768,7 +784,7 @@ def sh_units(ctx, out, rule="SH.units", floor=20):
             if v is not b:
                 views.append((v, ()))
         for v, items in views:
-            u = Units(ctx, v, items)
+            u = Units(ctx, v, items, per_char=(v is b and b.id in per_char))
             seeds += len(u.seeds)
             found, n = u.sinks()
             if v is b:
@@ -780,7 +796,9 @@ def sh_units(ctx, out, rule="SH.units", floor=20):
                     continue
                 seen.add(key)
                 src = "%s at %s" % (why[2], ctx.where(v, why[1]))
-                if kind == "str-index":
+                if kind == "position-column":
+                    out.viol(rule, key, where, "the column of a reported position is counted in characters (%s): every column blockwatch reports is a byte column, so the position falls short of the text it is about by one for every multi-byte character before it on the line" % src)
+                elif kind == "str-index":
                     out.viol(rule, key, where, "a `str` is sliced / split at an index counted in characters (%s): byte offsets and character counts differ as soon as a multi-byte character precedes the position — the slice starts at the wrong place or panics inside a character" % src)
                 else:
                     out.viol(rule, key, where, "a character count (%s) is added to / subtracted from a byte quantity: the result is neither; every column and offset blockwatch reports is in bytes" % src)
@@ -832,3 +850,87 @@ def run_renamed(out, fn, old, new):
         out.rules[r.replace(old + ".", new + ".", 1) if r.startswith(old + ".") else r] = d
     out.notes.extend(tr.notes)
     out.exceptions_used.extend(tr.exceptions_used)
+
+
+def check_detect_cases(ctx, out, names, rule):
+    """A validator exists only if its detector fires on some block, so which blocks fire it is part of every
+    rule's behaviour: a block carrying the attribute - with any value, the empty and the blank one included -
+    fires the detector (the `affects` detector besides requires modified content), a block without it does not,
+    and nothing else about the block matters. Decided on a small model (engine.casewalk + strmodel): the
+    detector's MIR, with crate-local helpers inlined, is walked for {attribute absent, "", "  ", "x"} x
+    {content modified or not}; lookups of the attribute map are answered from the case, every other attribute
+    is absent. A detector the model cannot follow gives no verdict here (the structural readings of C14.names
+    and C01.guard remain)."""
+    from engine import casewalk as CW
+    from engine import strmodel as SM
+    std = CW.std_hooks()
+    sm = SM.hooks()
+    vals = ctx.roles().get("validators", {})
+    n = 0
+    total = 0
+    samples = []
+    bwc = ctx.facts.adts.get("blockwatch::blocks::BlockWithContext") or {}
+    flag_fields = [f["name"] for v in bwc.get("variants", [])[:1] for f in v.get("fields", []) if f["ty"] == "bool"]
+    for name in names:
+        info = vals.get(name) or {}
+        det0 = ctx.facts.bodies.get(info.get("detect") or "")
+        if det0 is None or det0.argc != 2:
+            continue
+        v = ctx.inl(det0, skip=lambda cb: False, tag="all-sugar", sugar=True)
+        undecided = False
+        for value in (None, "", "  ", "x"):
+            for modified in (0, 1):
+                results = set()
+
+                def hook(w, bb, t, argv, env, value=value):
+                    nm = callee_name(t)
+                    if re.search(r"HashMap::<K, V, S, A>::(get|contains_key)$", nm) and len(argv) > 1:
+                        k = w.deref_val(env, argv[1])
+                        if not (CW.is_const(k) and isinstance(k[1], str)):
+                            return None
+                        hit = (k[1] == name and value is not None)
+                        if nm.endswith("contains_key"):
+                            return CW.const(1 if hit else 0)
+                        return CW.adt("std::option::Option", "Some", 1, [("0", CW.const(value))]) if hit else CW.adt("std::option::Option", "None", 0, [])
+                    r_ = sm(w, bb, t, argv, env)
+                    if r_ is not None:
+                        return r_
+                    return std(w, bb, t, argv, env)
+                w = CW.Walk(ctx, v, [hook], max_states=6000)
+
+                def on_visit(bb, env):
+                    tm = v.blocks[bb]["term"]
+                    if tm and tm["k"] == "return":
+                        r0 = env.get(0, CW.TOP)
+                        if r0[0] == "adt" and r0[2] == "Ok":
+                            p0 = w.deref_val(env, w.field(r0, "0"))
+                            results.add("fires" if (p0[0] == "adt" and p0[2] == "Some") else "silent" if (p0[0] == "adt" and p0[2] == "None") else "?")
+                        elif r0[0] == "adt" and r0[2] == "Err":
+                            results.add("error")
+                        else:
+                            results.add("?")
+                w.on_visit = on_visit
+                block = CW.adt("blockwatch::blocks::Block", "Block", 0, [("attributes", CW.sym("ATTRS"))])
+                fields = [("block", block)] + [(f, CW.const(modified)) for f in flag_fields]
+                env = {-9: CW.adt("blockwatch::blocks::BlockWithContext", "BlockWithContext", 0, fields), 2: ("ref", -9, (), False)}
+                try:
+                    w.explore(0, env)
+                except CW.Limit:
+                    results = {"?"}
+                if "?" in results or not results:
+                    undecided = True
+                    continue
+                total += 1
+                want = "fires" if (value is not None and (name != "affects" or modified)) else "silent"
+                if results == {want}:
+                    n += 1
+                else:
+                    out.viol(rule, "%s|%s|%s|%s" % (rule, name, "absent" if value is None else repr(value), "modified" if modified else "unmodified"), ctx.where(det0),
+                             "the `%s` detector, asked about a block %s whose content is %s: %s; expected: %s - a validator that is not created cannot report anything, a malformed (empty, blank) attribute included, and one that is created for other blocks runs where its rule was not asked for" % (
+                                 name, "without the attribute" if value is None else "with %s=%r" % (name, value), "modified" if modified else "not modified",
+                                 " / ".join(sorted(results)), want))
+        if undecided:
+            out.note("%s: the `%s` detector could not be followed on every case of the small model" % (rule, name))
+        else:
+            samples.append("%s: 8 cases" % name)
+    out.inst(rule, n, 0, samples, note="%d of %d decided detector cases as expected ({absent, \"\", blank, value} x {modified, not})" % (n, total), exhaustive=True)
